@@ -16,7 +16,7 @@ from ..provider.located_request import LocatedRequestDelegatingProvider, Located
 from ..provider.location import GenericParamLoc, TypeHintLoc
 from ..special_cases_optimization import as_is_stub
 from ..type_tools import BaseNormType, NormTypeAlias, is_new_type, is_subclass_soft, strip_tags
-from ..type_tools.basic_utils import eval_forward_ref
+from ..type_tools.basic_utils import eval_forward_ref, get_forward_ref_namespace
 from ..utils import MappingHashWrapper
 from .load_error import BadVariantLoadError, LoadError, TypeLoadError, UnionLoadError
 from .provider_template import DumperProvider, LoaderProvider
@@ -80,10 +80,11 @@ class ForwardRefEvaluatingProvider(LocatedRequestDelegatingProvider):
         if not isinstance(tp, ForwardRef):
             raise CannotProvide
 
-        if tp.__forward_module__ is None:
+        namespace = get_forward_ref_namespace(tp)
+        if namespace is None:
             raise CannotProvide("ForwardRef can not be evaluated", is_terminal=True, is_demonstrative=True)
 
-        return eval_forward_ref(tp.__forward_module__.__dict__, tp)
+        return eval_forward_ref(namespace, tp)
 
 
 def _is_exact_zero_or_one(arg):
